@@ -233,6 +233,10 @@ pub fn gen_sim_case(prop: &str, r: &mut SplitMix64) -> SimCase {
     }
     let n = if directed && r.chance(1, 2) { r.range(1, 6) as usize } else { r.range(1, 40) as usize };
     let mut t = *r.pick(&[0u64, 0, 1000, 1_000_000]);
+    // absolute (epoch-style) or very late timestamps: beyond 2^53 ns a detour through f64 loses nanoseconds
+    if r.chance(1, 10) {
+        t = *r.pick(&[(1u64 << 53) + 1, 1_700_000_000_123_456_789, (1u64 << 62) + 12_345, (1u64 << 53) - 3]);
+    }
     let mut trace = vec![];
     for _ in 0..n {
         t += *r.pick(&[0u64, 0, 1, 1000, 10_000, 100_000, 1_000_000, 5_000_000, 50_000_000, 1_000_000_000]);
@@ -255,7 +259,8 @@ pub fn gen_sim_case(prop: &str, r: &mut SplitMix64) -> SimCase {
         cont,
         only_client: r.chance(1, 5),
         only_network: r.chance(1, 5),
-        seed: r.next(),
+        // boundary seeds: the server framework is seeded with seed + 1 (wrapping)
+        seed: if r.chance(1, 8) { *r.pick(&[0u64, 1, u64::MAX, u64::MAX - 1, 1u64 << 63, u32::MAX as u64]) } else { r.next() },
     }
 }
 
